@@ -45,6 +45,7 @@ MC_BaseCalls == <<
   >>
 MC_AllNames == {<<"s">>, <<"x", 0>>, <<"x", 1>>} \cup {<<"A", i, j>> : i \in 0..1, j \in 0..1}
 MC_En == {"SBin", "SBinLit", "SNeg"}
+MC_ObjCands == {}
 MC_Stages == <<>>
 MC_FinalEn == {}
 MC_ScalarLits == {LitS("int", Q(2, 1))}
